@@ -173,13 +173,13 @@ func apply[S ~[]E, E selectable](list S, submissionRequirement SubmissionRequire
 	// take max if both min and max are set
 	index := 0
 	for _, member := range list {
+		if submissionRequirement.Max != nil && index >= *submissionRequirement.Max {
+			// we have enough to fulfill the max requirement, stop (checked before taking a member: max can be 0)
+			break
+		}
 		if !member.empty() {
 			returnVCs = append(returnVCs, member.flatten()...)
 			index++
-		}
-		if submissionRequirement.Max != nil && index == *submissionRequirement.Max {
-			// we have enough to fulfill the max requirement, stop
-			break
 		}
 	}
 	return returnVCs, nil
